@@ -7,7 +7,7 @@ def run(rep, tier, seed):
     rep.rule = ("programs: every wrapper path of depth <=2 (quick) / <=3 sampled (thorough) over 20 wrapper kinds inside a try "
                 "body x focal {ok, failing call, unknown identifier, assignment to undeclared} x {no catch, catch, catch var} x "
                 "{top level, inside a block yielded with content}, probes for '.', variables, isset of every name, yield content "
-                "and output position before and after the try; each program also after an execution into a writer that fails; every construct failing inside a try 130 times in one execution (Gen_Soak); every program is non-trivial; distinct by program")
+                "and output position before and after the try; each program also after an execution into a writer that fails; every construct failing inside a try 130 times in one execution (Gen_Soak); every program is non-trivial; distinct by program. History probe: 7 call sites in the try body x 7 failing templates that define, import or inherit a block named like one of the caller's x catch with/without a variable, executed twice: blocks, variables, '.' and output after the try are those before it")
     gen_and_replay(rep, wd, exe, "Gen_C13.tla", "C13_d2", {"Depth": 2}, {"Kinds": "WrapKinds"})
     # the same programs after an execution whose writer failed half way (undelivered bytes of a committed try)
     import os
